@@ -394,21 +394,28 @@ func checkShadowStruct(w *World, r *Result) {
 	}
 	r.cond(tagFlows, "FLW-C02d", fi.Name, "struct tags carried into the shadow struct", w.Pos(defApp.Pos()), "the field definition is built from the field's name, type and tag", "the shadow struct's fields are declared without the original struct tags: a field tagged `json:\"a\"` is written under the key `A`, `json:\"-\"` fields appear, omitempty is lost")
 	// AGR-C02w: wrapper exactly for union-typed fields
-	rw := w.MustFunc("generator/go/gounions.requireWrapper")
-	okRW := false
-	ast.Inspect(rw.Decl.Body, func(x ast.Node) bool {
-		if ta, ok := x.(*ast.TypeAssertExpr); ok && ta.Type != nil && strings.HasSuffix(es(ta.Type), "Union") && strings.HasSuffix(es(ta.X), ".Type") {
-			okRW = true
+	// the branch that installs the wrapper conversions is taken exactly when the field's analysed type is a union:
+	// its condition is the ok of `field.Type.(*an.Union)`, written in place or behind a predicate of the package
+	isUnionAssert := func(e ast.Expr) bool {
+		ta, ok := ast.Unparen(e).(*ast.TypeAssertExpr)
+		return ok && ta.Type != nil && strings.HasSuffix(es(ta.Type), "Union") && strings.HasSuffix(es(ta.X), ".Type")
+	}
+	okOfUnionAssert := func(fd *ast.FuncDecl, e ast.Expr) bool {
+		id := identOf(e)
+		if id == nil {
+			return false
 		}
-		return true
-	})
-	wrapOK := false
+		for _, d := range defsIn(info, fd, objOf(info, id)) {
+			if isUnionAssert(d) {
+				return true
+			}
+		}
+		return false
+	}
+	okRW, wrapOK := false, false
 	ast.Inspect(mir.rs.Body, func(x ast.Node) bool {
 		is, ok := x.(*ast.IfStmt)
 		if !ok {
-			return true
-		}
-		if call, ok := ast.Unparen(is.Cond).(*ast.CallExpr); !ok || calleeOf(info, call) != rw.Obj {
 			return true
 		}
 		txt := ""
@@ -418,7 +425,24 @@ func checkShadowStruct(w *World, r *Result) {
 			}
 			return true
 		})
-		wrapOK = strings.Contains(txt, "Wrapper") && strings.Contains(txt, "%s{item.%s}") && strings.Contains(txt, "wr.%s.Data")
+		if !strings.Contains(txt, "Wrapper") {
+			return true
+		}
+		wrapOK = strings.Contains(txt, "%s{item.%s}") && strings.Contains(txt, "wr.%s.Data")
+		cond := ast.Unparen(is.Cond)
+		if okOfUnionAssert(fi.Decl, cond) {
+			okRW = true
+		}
+		if call, ok := cond.(*ast.CallExpr); ok {
+			if h := w.Funcs[calleeOf(info, call)]; h != nil && h.Decl.Body != nil {
+				ast.Inspect(h.Decl.Body, func(y ast.Node) bool {
+					if ret, ok := y.(*ast.ReturnStmt); ok && len(ret.Results) == 1 && okOfUnionAssert(h.Decl, ret.Results[0]) {
+						okRW = true
+					}
+					return true
+				})
+			}
+		}
 		return true
 	})
 	r.cond(okRW && wrapOK, "AGR-C02w", fi.Name, "wrapper exactly for union-typed fields", w.Pos(mir.rs.Pos()), "requireWrapper tests field.Type.(*Union); such a field becomes <T>Wrapper{item.F} on the way out and wr.F.Data on the way in", "a field is not replaced by its union wrapper exactly when its analysed type is a union, or the in/out conversions are not <T>Wrapper{item.F} / wr.F.Data")
